@@ -3,5 +3,8 @@
 
 def run(run):
     run.model_check("MC_Zones")
+    # the Session state machine itself: exhaustive to depth 2 on every change, to depth 3 in the thorough tier
+    # (3 394 distinct states / 743 k transitions, 21 min on 16 cores), every invariant and action property
+    run.model_check("MC_Session", env_={"PV_DEPTH": "2" if run.tier == "quick" else "3"}, heap="6g", timeout=7200)
     run.drive([("rs", 16), ("py", 8)])
     return run
